@@ -87,13 +87,15 @@ theorem run_confined_alloc (x y : Nat) (base size : Int) (hs : 0 ≤ size) (m : 
 /-- **A slice covers exactly the clipped sub-range it names**: `view[a:b]` (step `None` or 1)
 creates, without touching memory or any existing view, a new open view at position 0 whose range
 is `view.start + [lo, lo + max 0 (hi - lo))` where `(lo, hi, 1) = slice(a, b).indices(len(view))`
-as CPython computes them. -/
+as CPython computes them (on a live view; on a closed view / freed allocation slicing raises
+OSError: `dead_after_close`, `no_access_after_free`). -/
 theorem slice_exact (w : World) (i : Nat) (v : View) (a b st : Option Int)
-    (hv : w.views[i]? = some v) (hwf : v.start ≤ v.stop) (hst : st = none ∨ st = some 1) :
+    (hv : w.views[i]? = some v) (hlive : dead w v = false) (hwf : v.start ≤ v.stop)
+    (hst : st = none ∨ st = some 1) :
     step w (.slice i a b st) =
       ({ w with views := w.views ++ [specSlice v a b] }, ⟨.view w.views.length, false, none⟩) := by
   unfold step
-  simp only [Op.target, hv, stepView, doSlice, hst, if_true]
+  simp only [Op.target, hv, stepView, doSlice, doSliceOrig, hlive, Bool.false_eq_true, if_false, hst, if_true]
   rw [slice_bounds_exact v hwf a b]
 
 /-- the named sub-range lies inside the parent view (also for negative, reversed and
@@ -105,10 +107,10 @@ theorem slice_within_parent (v : View) (h : v.start ≤ v.stop) (a b : Option In
 
 /-- any other step is rejected -/
 theorem slice_step_rejected (w : World) (i : Nat) (v : View) (a b : Option Int) (s : Int)
-    (hv : w.views[i]? = some v) (hs : s ≠ 1) :
+    (hv : w.views[i]? = some v) (hlive : dead w v = false) (hs : s ≠ 1) :
     step w (.slice i a b (some s)) = (w, ⟨.err .valueError, false, none⟩) := by
   unfold step
-  simp [Op.target, hv, stepView, doSlice, hs, fail]
+  simp [Op.target, hv, stepView, doSlice, doSliceOrig, hlive, hs, fail]
 
 /-! ## Bounded file -/
 
@@ -198,10 +200,10 @@ theorem close_closes (w : World) (i : Nat) (v : View) (hv : w.views[i]? = some v
     exact ⟨{ v with closed := true }, by simp [List.getElem?_set, hlt], rfl⟩
 
 /-- **Closed views are dead**: once view `i` is closed, after any further history every
-read / write / seek / tell / flush / address on it raises OSError, changes nothing and issues
-no controller access. -/
+read / write / seek / tell / flush / address on it AND every slicing of it (`view[a:b:s]`,
+`view[k]`) raises OSError, changes nothing (no new view) and issues no controller access. -/
 theorem dead_after_close (w : World) (i : Nat) (h : ClosedAt w i) (ops : List Op) (op : Op)
-    (hio : op.isIO = true) (ht : op.target = i) :
+    (hio : op.mustFail = true) (ht : op.target = i) :
     step (run w ops).2 op = ((run w ops).2, ⟨.err .osError, false, none⟩) := by
   obtain ⟨v, hv, hc⟩ := run_closedAt ops w i h
   exact step_dead _ op v (by rw [ht]; exact hv) (by simp [dead, hc]) hio
@@ -215,10 +217,11 @@ theorem free_frees (w : World) (r : View) (hr : w.views[0]? = some r) (hf : w.fr
 
 /-- **Freed allocations are dead**: once the owner is freed, after any further history
 (i) no call on any view of the allocation ever issues a controller access again and
-(ii) every read / write / seek / tell / flush / address on any view raises OSError. -/
+(ii) every read / write / seek / tell / flush / address on any view and every slicing of any
+view raises OSError (and creates no view). -/
 theorem no_access_after_free (w : World) (h : w.freed = true) (ops : List Op) :
     (∀ o ∈ (run w ops).1, o.access = none) ∧
-    (∀ op v, (run w ops).2.views[op.target]? = some v → op.isIO = true →
+    (∀ op v, (run w ops).2.views[op.target]? = some v → op.mustFail = true →
       step (run w ops).2 op = ((run w ops).2, ⟨.err .osError, false, none⟩)) := by
   constructor
   · induction ops generalizing w with
@@ -255,6 +258,22 @@ theorem orig_write_escapes_above :
     ¬ Confined 1 2 u (.write u.address [97, 98, 99, 100] 1 2 0) ∧
     writeData v [1, 2, 3, 4, 5, 6, 7, 8] = (true, []) ∧ writeData u [97, 98, 99, 100] = (true, []) := by
   decide
+
+/-- the code before fixes/c13-getitem-closed.diff: slicing a CLOSED view succeeds and returns a
+fresh open view (through which memory can be accessed again); the guarded code raises OSError -/
+theorem orig_slice_of_closed_view_is_open :
+    let w : World := ⟨1, 2, false, [⟨1000, 1010, 3, true⟩], fun _ => 0⟩
+    let v : View := ⟨1000, 1010, 3, true⟩
+    (doSliceOrig w v (some 2) (some 5) none).2 = ⟨.view 1, false, none⟩ ∧
+    (doSliceOrig w v (some 2) (some 5) none).1.views = [v, ⟨1002, 1005, 0, false⟩] ∧
+    (step w (.slice 0 (some 2) (some 5) none)).2 = ⟨.err .osError, false, none⟩ ∧
+    (step w (.slice 0 (some 2) (some 5) none)).1.views = [v] := by
+  decide
+
+/-- the guard changes nothing for live views -/
+theorem getitem_fix_conservative (w : World) (v : View) (a b st : Option Int) (h : dead w v = false) :
+    doSlice w v a b st = doSliceOrig w v a b st := by
+  simp [doSlice, h]
 
 /-- the fix changes nothing while the position is inside the view -/
 theorem fix_conservative (v : View) (h0 : 0 ≤ v.offset) (h1 : v.offset ≤ v.len) (n : Int) (d : List Nat) :
@@ -307,6 +326,13 @@ example : ClosedAt (step (mkRoot 1 2 1000 1010 (fun _ => 7)) (.close 0)).1 0 :=
   close_closes _ 0 (mkView 1000 1010) rfl rfl
 example : (step (mkRoot 1 2 1000 1010 (fun _ => 7)) (.free 0)).1.freed = true :=
   (free_frees _ (mkView 1000 1010) rfl rfl).1
+
+/-- slicing is among the operations that fail after close (`dead_after_close` with a slice) -/
+example : step (step (mkRoot 1 2 1000 1010 (fun _ => 7)) (.close 0)).1 (.slice 0 (some 1) none none)
+    = ((step (mkRoot 1 2 1000 1010 (fun _ => 7)) (.close 0)).1, ⟨.err .osError, false, none⟩) :=
+  dead_after_close (step (mkRoot 1 2 1000 1010 (fun _ => 7)) (.close 0)).1 0
+    (close_closes (mkRoot 1 2 1000 1010 (fun _ => 7)) 0 (mkView 1000 1010) rfl rfl) []
+    (.slice 0 (some 1) none none) rfl rfl
 
 /-- `WF` holds of a world with slices (`step_WF`, `run_confined`) -/
 example : WF 1000 1010 (run (mkRoot 1 2 1000 1010 (fun _ => 7))
